@@ -50,7 +50,7 @@ structure SameCore (w w' : World) : Prop where
   nextCR : w'.nextCR = w.nextCR
   nextProto : w'.nextProto = w.nextProto
   protos : ∀ p, (∀ pr', w'.protos.get? p = some pr' → ∃ pr, w.protos.get? p = some pr ∧ pr'.addr = pr.addr ∧ pr'.state = pr.state ∧
-      pr'.lost = pr.lost ∧ pr'.pingTimer = pr.pingTimer ∧ pr'.pingAlarm = pr.pingAlarm ∧ pr'.pingKeepalive = pr.pingKeepalive ∧ pr'.connReq = pr.connReq) ∧
+      pr'.lost = pr.lost ∧ pr'.pingTimer = pr.pingTimer ∧ pr'.pingAlarm = pr.pingAlarm ∧ pr'.pingKeepalive = pr.pingKeepalive ∧ pr'.connReq = pr.connReq ∧ (Bytes.WF pr.buffer → Bytes.WF pr'.buffer)) ∧
     (∀ pr, w.protos.get? p = some pr → ∃ pr', w'.protos.get? p = some pr')
 
 theorem WInvX.sameCore {x : Option Nat} {w w' : World} (h : WInvX x w) (s : SameCore w w') : WInvX x w' := by
@@ -65,7 +65,7 @@ theorem WInvX.sameCore {x : Option Nat} {w w' : World} (h : WInvX x w) (s : Same
       exact ⟨tm', a1, by rw [a3]; exact b, by rw [a2]; exact c⟩
   have hid : ∀ e, idOf w' e = idOf w e := by intro e; simp [idOf, (s.reqs e.rid).1]
   have hpr : ∀ p pr', w'.protos.get? p = some pr' → ∃ pr, w.protos.get? p = some pr ∧ pr'.addr = pr.addr ∧ pr'.state = pr.state ∧
-      pr'.lost = pr.lost ∧ pr'.pingTimer = pr.pingTimer ∧ pr'.pingAlarm = pr.pingAlarm ∧ pr'.pingKeepalive = pr.pingKeepalive ∧ pr'.connReq = pr.connReq :=
+      pr'.lost = pr.lost ∧ pr'.pingTimer = pr.pingTimer ∧ pr'.pingAlarm = pr.pingAlarm ∧ pr'.pingKeepalive = pr.pingKeepalive ∧ pr'.connReq = pr.connReq ∧ (Bytes.WF pr.buffer → Bytes.WF pr'.buffer) :=
     fun p => (s.protos p).1
   constructor
   case nodup => rw [s.ents]; exact h.nodup
@@ -141,7 +141,7 @@ theorem WInvX.sameCore {x : Option Nat} {w w' : World} (h : WInvX x w) (s : Same
     exact ⟨pr', l, a', by rw [e]; exact b, c⟩
   case connecting =>
     intro p pr' hp' hs
-    obtain ⟨pr, a, _, c, _, _, _, _, g⟩ := hpr p pr' hp'
+    obtain ⟨pr, a, _, c, _, _, _, _, g, _⟩ := hpr p pr' hp'
     obtain ⟨cr, cc, i1, i2⟩ := h.connecting p pr a (by rw [← c]; exact hs)
     exact ⟨cr, cc, by rw [g]; exact i1, by rw [s.connReqs]; exact i2⟩
   case connReq =>
@@ -154,6 +154,29 @@ theorem WInvX.sameCore {x : Option Nat} {w w' : World} (h : WInvX x w) (s : Same
   case connackOwned =>
     rw [s.connReqs, s.fired]
     intro t cr hpd; exact h.connackOwned t cr ((hp _ _).mp hpd)
+  case retryLive =>
+    intro t p rid hpd
+    obtain ⟨pr, a, b⟩ := h.retryLive t p rid ((hp _ _).mp hpd)
+    obtain ⟨pr', a'⟩ := (s.protos p).2 pr a
+    obtain ⟨pr2, a2, _, _, d2, _⟩ := hpr p pr' a'
+    rw [a] at a2; injection a2 with a2; subst a2
+    exact ⟨pr', a', by rw [d2]; exact b⟩
+  case connectingFresh =>
+    rw [s.connReqs, s.fired]
+    intro p pr' cr c d hp' hs hcq
+    obtain ⟨pr, a, _, c1, _, _, _, _, g, _⟩ := hpr p pr' hp'
+    exact h.connectingFresh p pr cr c d a (by rw [← c1]; exact hs) (by rw [← g]; exact hcq)
+  case subArmed =>
+    rw [s.ents]; intro e he hb ha; rw [(s.reqs e.rid).2.2] at ha
+    obtain ⟨p, pr, a, b, c⟩ := h.subArmed e he hb ha
+    obtain ⟨pr', b'⟩ := (s.protos p).2 pr b
+    obtain ⟨pr2, b2, c2, _⟩ := hpr p pr' b'
+    rw [b] at b2; injection b2 with b2; subst b2
+    exact ⟨p, pr', a, b', by rw [c2]; exact c⟩
+  case bufOk =>
+    intro p pr' hp'
+    obtain ⟨pr, a, _, _, _, _, _, _, _, g⟩ := hpr p pr' hp'
+    exact g (h.bufOk p pr a)
 
 /-! ### A. an in-flight entry leaves its window: alarm cancelled, entry removed -/
 
@@ -234,6 +257,10 @@ theorem dropArmed_inv {x : Option Nat} {w : World} (h : WInvX x w) {e : Ent} (he
   case connReqInj => exact h.connReqInj
   case connReqFresh => exact h.connReqFresh
   case connackOwned => intro t' cr hp; exact h.connackOwned t' cr ((hpending _ _).mp hp).1
+  case retryLive => intro t' p rid hp; exact h.retryLive t' p rid ((hpending _ _).mp hp).1
+  case connectingFresh => exact h.connectingFresh
+  case subArmed => intro y hy; exact h.subArmed y ((hmem y).mp hy).1
+  case bufOk => exact h.bufOk
 
 theorem dropArmed_mem {x : Option Nat} {w : World} (h : WInvX x w) {e : Ent} (he : e ∈ w.ents) (hq : e.box ≠ .queue) (t : Nat) (y : Ent) :
     y ∈ (dropArmed w e t).ents ↔ y ∈ w.ents ∧ y ≠ e := mem_remove_iff h he hq y
@@ -296,6 +323,17 @@ theorem fireD_inv {x : Option Nat} {w : World} (h : WInvX x w) {d : Nat} (hd : d
     rcases hc with rfl | hc
     · exact hcr t cr c hpd a1 a2
     · exact a3 hc
+  case retryLive => exact h.retryLive
+  case connectingFresh =>
+    intro p pr cr c d' hp' hs hcq hc hd' hmem
+    have hnf := h.connectingFresh p pr cr c d' hp' hs hcq hc hd'
+    simp only [fireD, List.mem_cons] at hmem
+    rcases hmem with rfl | hmem
+    · obtain ⟨_, a2, _⟩ := h.connReq cr c d' hc hd' hnf
+      exact hcr _ cr c a2 hc hd'
+    · exact hnf hmem
+  case subArmed => exact h.subArmed
+  case bufOk => exact h.bufOk
 
 /-! ### C. an entry without alarm leaves its container -/
 
@@ -340,6 +378,10 @@ theorem dropQuiet_inv {x : Option Nat} {w : World} (h : WInvX x w) {e : Ent} (ha
   case connReqInj => exact h.connReqInj
   case connReqFresh => exact h.connReqFresh
   case connackOwned => exact h.connackOwned
+  case retryLive => exact h.retryLive
+  case connectingFresh => exact h.connectingFresh
+  case subArmed => intro y hy; exact h.subArmed y ((hmem y).mp hy).1
+  case bufOk => exact h.bufOk
 
 /-! ### world accessors under updates of the request heap -/
 
@@ -354,7 +396,8 @@ def disarm (w : World) (e : Ent) (t : Nat) : World :=
 
 theorem disarm_inv {x : Option Nat} {w : World} (h : WInvX x w) {e : Ent} (he : e ∈ w.ents) {t : Nat}
     (ht : (w.req e.rid).alarm = some t)
-    (hconn : ∀ p pr, w.protos.get? p = some pr → some p ≠ x → pr.lost = false → pr.state = .connected → pr.addr ≠ e.addr) :
+    (hconn : ∀ p pr, w.protos.get? p = some pr → some p ≠ x → pr.lost = false → pr.state = .connected → pr.addr ≠ e.addr)
+    (hsub : (e.box = .sub ∨ e.box = .unsub) → ∃ p pr, x = some p ∧ w.protos.get? p = some pr ∧ pr.addr = e.addr) :
     WInvX x (disarm w e t) := by
   obtain ⟨hq, p0, _, hpe, _⟩ := h.alarm e he t ht
   have ⟨tm, htm, _, _⟩ := hpe
@@ -442,6 +485,14 @@ theorem disarm_inv {x : Option Nat} {w : World} (h : WInvX x w) {e : Ent} (he : 
   case connReqInj => exact h.connReqInj
   case connReqFresh => exact h.connReqFresh
   case connackOwned => intro t' cr hp; exact h.connackOwned t' cr ((hpending _ _).mp hp).1
+  case retryLive => intro t' p rid hp; exact h.retryLive t' p rid ((hpending _ _).mp hp).1
+  case connectingFresh => exact h.connectingFresh
+  case subArmed =>
+    intro y hy hb ha
+    by_cases hye : y = e
+    · subst hye; exact hsub hb
+    · rw [hreq' y hy hye] at ha; exact h.subArmed y hy hb ha
+  case bufOk => exact h.bufOk
 
 /-! ### E/F. a retry timer is armed for an in-flight entry (first transmission, resumption, or re-arming on expiry) -/
 
@@ -461,7 +512,8 @@ def armed (w : World) (e : Ent) (r' : Req) (p due : Nat) (old : Option Nat) (now
 theorem armed_inv {x : Option Nat} {w : World} (h : WInvX x w) {e : Ent} (he : e ∈ w.ents) (hq : e.box ≠ .queue)
     (r' : Req) (p due : Nat) (old : Option Nat) (now' : Nat) (log' : List Obs)
     (hr1 : r'.msgId = (w.req e.rid).msgId) (hr2 : r'.dfd = (w.req e.rid).dfd) (hr3 : r'.alarm = some w.nextTimer)
-    (hold : (w.req e.rid).alarm = old) (ppr : Proto) (hpp : w.protos.get? p = some ppr) (haddr : ppr.addr = e.addr) :
+    (hold : (w.req e.rid).alarm = old) (ppr : Proto) (hpp : w.protos.get? p = some ppr) (haddr : ppr.addr = e.addr)
+    (hlive : ppr.lost = false) :
     WInvX x (armed w e r' p due old now' log') := by
   let w' := armed w e r' p due old now' log'
   have hfresh : w.timers.get? w.nextTimer = none := by
@@ -614,6 +666,18 @@ theorem armed_inv {x : Option Nat} {w : World} (h : WInvX x w) {e : Ent} (he : e
     rcases (hpending _ _).mp hp with ⟨hp1, _⟩ | ⟨_, hp2⟩
     · exact h.connackOwned t' cr hp1
     · cases hp2
+  case retryLive =>
+    intro t' q rid hp
+    rcases (hpending _ _).mp hp with ⟨hp1, _⟩ | ⟨_, hp2⟩
+    · exact h.retryLive t' q rid hp1
+    · injection hp2 with hq' _; subst hq'; exact ⟨ppr, hpp, hlive⟩
+  case connectingFresh => exact h.connectingFresh
+  case subArmed =>
+    intro y hy hb ha
+    by_cases hye : y = e
+    · subst hye; rw [hreqe, hr3] at ha; cases ha
+    · rw [hreq' y hy hye] at ha; exact h.subArmed y hy hb ha
+  case bufOk => exact h.bufOk
 
 /-! ### G/I. a request object enters a container -/
 
@@ -632,7 +696,7 @@ theorem addWindow_inv {x : Option Nat} {w : World} (h : WInvX x w) (a : Nat) (bo
     (hal : r.alarm = some w.nextTimer)
     (d : Nat) (hd : r.dfd = some d) (hd1 : d < nd') (hd2 : d ∉ w.fired)
     (hd3 : ∀ y ∈ w.ents, (w.req y.rid).dfd ≠ some d) (hd4 : ∀ cr c, w.connReqs.get? cr = some c → c.dfd ≠ some d)
-    (ppr : Proto) (hpp : w.protos.get? p = some ppr) (haddr : ppr.addr = a) :
+    (ppr : Proto) (hpp : w.protos.get? p = some ppr) (haddr : ppr.addr = a) (hlive : ppr.lost = false) :
     WInvX x (addWindow w a box key rid r p due nr' nd' log') := by
   let w' := addWindow w a box key rid r p due nr' nd' log'
   let ne : Ent := ⟨a, box, key, rid⟩
@@ -799,6 +863,19 @@ theorem addWindow_inv {x : Option Nat} {w : World} (h : WInvX x w) (a : Nat) (bo
     rcases (hpending _ _).mp hp with hp1 | ⟨_, hp2⟩
     · exact h.connackOwned t' cr hp1
     · cases hp2
+  case retryLive =>
+    intro t' q rid' hp
+    rcases (hpending _ _).mp hp with hp1 | ⟨_, hp2⟩
+    · exact h.retryLive t' q rid' hp1
+    · injection hp2 with hq' _; subst hq'; exact ⟨ppr, hpp, hlive⟩
+  case connectingFresh => exact h.connectingFresh
+  case subArmed =>
+    intro y hy hb ha
+    rcases (hmem y).mp hy with hy | rfl
+    · rw [hreqo y hy] at ha; exact h.subArmed y hy hb ha
+    · have : (w'.req rid).alarm = none := ha
+      rw [hreqn, hal] at this; cases this
+  case bufOk => exact h.bufOk
 
 /-- an accepted publish() is appended to the queue of held-back messages -/
 def addQueue (w : World) (a rid : Nat) (r : Req) (nr' nd' ns' : Nat) : World :=
@@ -930,5 +1007,13 @@ theorem addQueue_inv {x : Option Nat} {w : World} (h : WInvX x w) (a rid : Nat) 
   case connReqInj => exact h.connReqInj
   case connReqFresh => intro cr c d' hc hd'; exact Nat.lt_of_lt_of_le (h.connReqFresh cr c d' hc hd') hnd
   case connackOwned => exact h.connackOwned
+  case retryLive => exact h.retryLive
+  case connectingFresh => exact h.connectingFresh
+  case subArmed =>
+    intro y hy hb ha
+    rcases (hmem y).mp hy with hy | rfl
+    · rw [hreqo y hy] at ha; exact h.subArmed y hy hb ha
+    · rcases hb with hb | hb <;> cases hb
+  case bufOk => exact h.bufOk
 
 end Mqtt
